@@ -208,6 +208,41 @@ class CallGraph:
             visit(st, sc)
         return out
 
+    def _const_param_values(self, f: FuncInfo, pname: str):
+        """String constants a parameter of a *nested* function can take: its default and the constants passed at the
+        calls inside the defining function (the closure does not escape otherwise); None if not all are constants."""
+        if f.parent is None or isinstance(f.node, ast.Lambda):
+            return None
+        vals = set()
+        a = f.node.args
+        params = [p.arg for p in a.args]
+        if pname in params:
+            i = params.index(pname) - (len(params) - len(a.defaults))
+            if i >= 0:
+                d = a.defaults[i]
+                if isinstance(d, ast.Constant) and isinstance(d.value, str):
+                    vals.add(d.value)
+                else:
+                    return None
+        for node in walk_local(f.parent.node):
+            if isinstance(node, ast.Call) and isinstance(node.func, ast.Name) and node.func.id == f.name:
+                idx = params.index(pname) if pname in params else None
+                v = None
+                if idx is not None and idx < len(node.args):
+                    v = node.args[idx]
+                for k in node.keywords:
+                    if k.arg == pname:
+                        v = k.value
+                if v is None:
+                    continue
+                if isinstance(v, ast.Constant) and isinstance(v.value, str):
+                    vals.add(v.value)
+                else:
+                    return None
+            elif isinstance(node, ast.Name) and node.id == f.name and isinstance(node.ctx, ast.Load):
+                pass
+        return sorted(vals) if vals else None
+
     def _implicit_iter(self, f, it, sc, out):
         t = self.ix.infer(it, sc)
         if t is not None and t[0] == "inst":
@@ -226,6 +261,8 @@ class CallGraph:
             names = None
             if isinstance(n.args[1], ast.Constant) and isinstance(n.args[1].value, str):
                 names = [n.args[1].value]
+            elif isinstance(n.args[1], ast.Name) and n.args[1].id in f.param_names:
+                names = self._const_param_values(f, n.args[1].id)
             kind = "setter" if fn.id == "setattr" else "property"
             targets = []
             if names is not None:
